@@ -24,7 +24,9 @@ Lo(s, a) == CHOOSE m \in {s[k][a] : k \in 1..Len(s)} : \A k \in 1..Len(s) : m <=
 Hi(s, a) == CHOOSE m \in {s[k][a] : k \in 1..Len(s)} : \A k \in 1..Len(s) : m >= s[k][a]
 Origins(s) == {<<x, y, 0>> : x \in (Lo(s, 1) - Margin)..(Hi(s, 1) + Margin), y \in (Lo(s, 2) - Margin)..(Hi(s, 2) + Margin)}
 Thin(W) == {q \in W : (q[1] + 2 * q[2]) % Step = 0}
-Cases == UNION {{[m |-> "ray", op |-> "cast", pts |-> l, sc |-> sc, o |-> o, dirs |-> Dirs, nzd |-> (IF sc = 0 THEN 0 ELSE 1)] : o \in Thin(Origins(l)), sc \in {0, 3}} : l \in Lines}
+\* third variant (sc = -2): the same scene 2^23 lattice units from the origin (seven digits between position and feature size)
+FarOff(sc) == IF sc = -2 THEN <<8388608, -4194304, 0>> ELSE <<0, 0, 0>>
+Cases == UNION {{[m |-> "ray", op |-> "cast", pts |-> l, sc |-> sc, o |-> o, dirs |-> Dirs, nzd |-> (IF sc = 0 THEN 0 ELSE 1), off |-> FarOff(sc)] : o \in Thin(Origins(l)), sc \in {0, 3, -2}} : l \in Lines}
 Init == case \in Cases
 Next == UNCHANGED case
 Spec == Init /\ [][Next]_case
